@@ -12,7 +12,7 @@ BUDGET = {"quick": dict(cases=2000), "thorough": dict(cases=60000)}
 MIN_NONTRIVIAL = {"quick": 1500, "thorough": 20000}
 BLOB = (400, 2600)
 RULE = ("Hypothesis byte-backed generator: tables of 1-300 commands (weighted 1-12 / 13-40 / 100-300) in 1-4 groups, names over "
-        "the full alphabet A-Z a-z 0-9 + # $ @ _ % & built from stems (prefix relations, duplicates, case variants, names with a "
+        "the full alphabet A-Z a-z 0-9 + # $ @ _ % & built from stems (prefix relations, duplicates, case variants, typed names with a "
         "character outside the alphabet, a/z/A/Z over-represented), disabled commands and groups, implicit-write commands; "
         "one case in eight registers one command array through two groups, exactly one of them enabled (resolution is per registration); tables of 255-258 commands sharing one prefix (candidate counter), implicit-write commands with equal non-implicit duplicates in both orders; 4-8 lines per case typed as exact / other case / every proper prefix / +1 char / substitution / random name x "
         "suffix none,?,=args,=? ; an enumerated sweep of all registration orders of every <=4-command table over the +T/+TA/+TB/+TAB family (upper/lower case, first command disabled) x 8 typed names x 4 suffixes; command capacity from exactly ceil(n/4) upward. A case is non-trivial if some line's typed "
@@ -37,8 +37,10 @@ def _name(d, stems):
     base = bytearray(d.pick(stems))
     for _ in range(d.weighted([(4, 0), (4, 1), (3, 2), (1, 4)])):
         base.append(d.pick(EDGE) if d.chance(1, 3) else d.pick(ALPHA))
-    if d.unlikely(1, 20):
-        base.insert(d.below(len(base) + 1), d.pick(b"!*- ~"))   # reachable only by abbreviation
+    # (registered names stay inside the name alphabet the library documents: which further characters a typed name may contain is
+    #  not fixed by the statement - a harmless change that admits '!' '*' '-' ... made a name registered with such a character
+    #  reachable, DESIGN C.16; typed names still contain characters outside the alphabet)
+    d.unlikely(1, 20)
     return bytes(base[:10]) or b"a"
 
 
